@@ -32,6 +32,7 @@ class RepoWorld(World):
         self.method_hooks, self.getitem_hooks, self.setitem_hooks, self.truthy_hooks = [], [], [], []
         self.hasattr_hooks, self.callable_hooks = [], []
         self.eq_hooks = []
+        self.contains_hooks = []
         self.binop_hooks, self.compare_hooks, self.unary_hooks, self.with_call_hooks, self.ref_getattr_hooks = [], [], [], [], []
         self.path_getters = {}
 
